@@ -96,13 +96,14 @@ pub fn catalog() -> Arc<Cat> {
 ///   (<label> may be several labels separated by '.')
 ///   r<label>  `<label>.other.` A        -> REFUSED
 ///   f         QDCOUNT=0, opcode QUERY   -> FORMERR, no question
+///   u         QDCOUNT=0, opcode QUERY, OPT with EDNS version 1 -> BADVERS (detected before the missing question), no question
 ///   m         QDCOUNT=2                 -> no response at all (send_response = false before RRL)
 ///   o<label>  opcode 4 (NOTIFY), `<label>.example.` -> NOTIMP, exempt from RRL
 ///   v<label>  `<label>.example.` A with an OPT of EDNS version 1 -> BADVERS (extended RCODE 16: an
 ///             RCODE whose low four bits are 0), always carries an OPT
 pub fn query(kind: &str, edns: bool, id: u16) -> Vec<u8> {
     let (k, label) = kind.split_at(1);
-    let edns = edns || k == "v";
+    let edns = edns || k == "v" || k == "u";
     // `<label>` may hold several labels separated by '.', leftmost first
     let labels: Vec<&[u8]> = label.split('.').map(|l| l.as_bytes()).collect();
     let with = |tail: &[&[u8]]| -> Vec<u8> {
@@ -124,7 +125,7 @@ pub fn query(kind: &str, edns: bool, id: u16) -> Vec<u8> {
         "h" => (Some(with(&[b"cl", b"example"])), 1, 0, 1),
         "x" => (Some(with(&[b"nx", b"example"])), 1, 0, 1),
         "r" => (Some(with(&[b"other"])), 1, 0, 1),
-        "f" => (None, 0, 0, 0),
+        "f" | "u" => (None, 0, 0, 0),
         "m" => (Some(wire(&[b"a", b"example"])), 1, 0, 2),
         "o" => (Some(with(&[b"example"])), 1, 4, 1),
         "v" => (Some(with(&[b"example"])), 1, 0, 1),
@@ -141,7 +142,7 @@ pub fn query(kind: &str, edns: bool, id: u16) -> Vec<u8> {
     }
     if edns {
         m[11] = 1; // ARCOUNT
-        let version = if k == "v" { 1 } else { 0 };
+        let version = if k == "v" || k == "u" { 1 } else { 0 };
         m.extend_from_slice(&[0, 0, 41, 0x04, 0xd0, 0, version, 0, 0, 0, 0]);
     }
     m
@@ -209,4 +210,9 @@ pub fn params(ne: u32, nx: u32, er: u32, win: u32, slip: usize, size: usize, v4:
 
 pub fn send(server: &Server<Cat>, q: &[u8], src: IpAddr, tr: Transport, buf: &mut [u8]) -> Response {
     server.handle_message(q, ReceivedInfo::new(src, tr), buf)
+}
+
+/// query kinds whose request always carries an OPT record (EDNS version 1)
+pub fn forces_edns(kind: &str) -> bool {
+    kind.starts_with('v') || kind.starts_with('u')
 }
